@@ -1,11 +1,12 @@
 import RpmVerif.Model.Getters
 import RpmVerif.Gen.FileDigestLen
+import RpmVerif.Model.Compression
 /-!
 # L3: metadata accessors of `PackageMetadata` (src/rpm/package.rs)
 
 Every accessor is a composition of the typed getters; error classes are the getters' (`notfound`,
 `wrongtype`) plus `index` (InvalidTagIndex), `enum` (InvalidTagValueEnumVariant),
-`unsupported` (UnsupportedDigestAlgorithm), `compressor` (UnknownCompressorType).
+`unsupported` (UnsupportedDigestAlgorithm), `unknown-compressor` (UnknownCompressorType).
 -/
 namespace RpmVerif.Acc
 open RpmVerif.Hdr RpmVerif.Gen
@@ -96,12 +97,15 @@ def getInstalledSize (h : Header) : Out Nat :=
   | .ok v => .ok v
   | _ => getU32 h IndexTag.RPMTAG_SIZE
 
-/-- `get_payload_compressor`: absent → "none"; otherwise `CompressionType::from_str` on the text.
-Returns the compressor's display name. -/
-def getPayloadCompressor (knownNames : List Bytes) (h : Header) : Out Bytes :=
+/-- `get_payload_compressor`: tag absent → `Ok(CompressionType::None)` (the variant is scraped from the source:
+`Gen.payloadCompressorDefault`); any other getter error is passed on; otherwise `CompressionType::from_str` on the text
+(`Compression.fromStr` over the scraped `match` table; error class `unknown-compressor`). The result is the variant's
+declaration index. The Rust `&str` is compared as its UTF-8 bytes against the table's code points — the same test as long
+as the table's names are ASCII (`C05.compression_names_ascii`, re-checked on every run). -/
+def getPayloadCompressor (h : Header) : Out Nat :=
   match getString h IndexTag.RPMTAG_PAYLOADCOMPRESSOR with
-  | .ok s => if knownNames.contains s then .ok s else .err "compressor"
-  | .err "notfound" => .ok [110, 111, 110, 101]
+  | .ok s => Compression.fromStr (s.map UInt8.toNat)
+  | .err "notfound" => .ok payloadCompressorDefault
   | .err c => .err c
   | .panic s => .panic s
 
